@@ -43,6 +43,8 @@ EvGb ==
                \cup If(e.wpanic = "" /\ e.rpanic = "" /\ e.rerr = "" /\ nr # nw, {<<"fifo-count", "-", "-">>})
                \cup UNION {{<<"field", f, IF k = nw THEN tag("field", f) ELSE "-">> : f \in Differing(e.written[k], e.read[k])} : k \in 1..(IF nr < nw THEN nr ELSE nw)}
                \cup If(e.wpanic = "" /\ e.rpanic = "" /\ e.rerr = "" /\ nr = nw /\ ~e.fixed, {<<"not-fixed-point", "-", tag("not-fixed-point", "-")>>})
+               \* reading must not depend on where the reader's buffer happens to end
+               \cup If("splitdiff" \in DOMAIN e /\ e.splitdiff # -1, {<<"split-read", "-", "-">>})
      IN /\ verdicts' = verdicts \cup Tag(e, vs)
         /\ nrecs' = nrecs + nw
 
